@@ -22,7 +22,7 @@ int main(int argc, char** argv) {
     g_doc = json::parse(R"({"a":[{"k":"abc","n":1},{"k":"x","n":2.5},null,[1,[2]]],"b":"s","c":{"d":true},"":0})");
     struct Space { const char* name; SeqSpace sp; void (*add)(Case&, const std::string&); };
     std::vector<Space> spaces = {
-        {"jsonpath", {{"$", "@", ".", "..", "*", "[", "]", "(", ")", "?", "'a'", "\"", "a", "0", "-1", ":", ",", "==", "<", "&&", "!", "^", "length", " ", "=~", "/a/", "+", "'"}, thorough ? 5 : 4}, add_jsonpath},
+        {"jsonpath", {{"$", "@", ".", "..", "*", "[", "]", "(", ")", "?", "'a'", "\"", "a", "0", "-1", ":", ",", "==", "<", "&&", "!", "^", "length", " ", "=~", "/a/", "+", "'", "/[/", "/(/i"}, thorough ? 5 : 4}, add_jsonpath},
         {"jmespath", {{"a", ".", "[", "]", "*", "?", "(", ")", "|", "||", "&&", "!", "@", "`1`", "'x'", "\"", "0", "-", ":", ",", "{", "}", "&", "==", "<", "length", "sort_by", " ", "`"}, thorough ? 5 : 4}, add_jmespath},
     };
     std::vector<long long> off; long long total = 0; for (auto& s : spaces) { off.push_back(total); total += s.sp.count(); }
